@@ -324,8 +324,14 @@ func (r *Run) Finish(minNontrivial int) int {
 	r.mu.Lock()
 	defer r.mu.Unlock()
 	wall := time.Since(r.start).Seconds()
-	_ = os.MkdirAll(filepath.Join(VerifDir, "evidence"), 0755)
-	_ = os.MkdirAll(filepath.Join(VerifDir, "replay"), 0755)
+	outDir := VerifDir
+	if d := os.Getenv("VERIF_OUT_DIR"); d != "" {
+		// used when an engine is run as a sub-process of another check (e.g. under the race detector for C19):
+		// its evidence and replay files must not overwrite the registered ones
+		outDir = d
+	}
+	_ = os.MkdirAll(filepath.Join(outDir, "evidence"), 0755)
+	_ = os.MkdirAll(filepath.Join(outDir, "replay"), 0755)
 
 	if len(r.nontrivial) < minNontrivial {
 		r.inconcl = append(r.inconcl, fmt.Sprintf("only %d distinct non-trivial cases observed (floor %d)",
@@ -348,7 +354,7 @@ func (r *Run) Finish(minNontrivial int) int {
 		if bySig[v.Sig] > 3 {
 			continue // at most 3 replay files per signature
 		}
-		path := filepath.Join(VerifDir, "replay", fmt.Sprintf("%s-%s-%d-%d.json", r.Prop, sanitize(v.Sig), r.Seed, i))
+		path := filepath.Join(outDir, "replay", fmt.Sprintf("%s-%s-%d-%d.json", r.Prop, sanitize(v.Sig), r.Seed, i))
 		data, _ := json.MarshalIndent(map[string]interface{}{"property": r.Prop, "engine": r.Engine, "tier": r.Tier,
 			"seed": r.Seed, "violation": v}, "", " ")
 		_ = os.WriteFile(path, data, 0644)
@@ -386,7 +392,7 @@ func (r *Run) Finish(minNontrivial int) int {
 		ev["assumptions"] = []string{}
 	}
 	data, _ := json.MarshalIndent(ev, "", " ")
-	if err := os.WriteFile(filepath.Join(VerifDir, "evidence", r.Prop+".json"), data, 0644); err != nil {
+	if err := os.WriteFile(filepath.Join(outDir, "evidence", r.Prop+".json"), data, 0644); err != nil {
 		fmt.Fprintf(os.Stderr, "cannot write evidence: %v\n", err)
 		return ExitBroken
 	}
